@@ -903,8 +903,11 @@ class CompositeEnvelope:
             if all(s in ps.state_objs for s in state_objs):
                 return
 
-        # Check if all states are included in composite envelope
-        assert all(s in self.state_objs for s in state_objs)
+        # Check if all states are included in composite envelope (by identity,
+        # two distinct states can hold equal values)
+        assert all(
+            any(s is included for included in self.state_objs) for s in state_objs
+        )
 
         """
         Get all product states, which include any of the
@@ -1379,7 +1382,7 @@ class CompositeEnvelope:
             raise ValueError("Only Fock spaces can be resized")
 
         # Check if fock is in this composite envelope
-        if fock not in self.state_objs:
+        if not any(fock is included for included in self.state_objs):
             raise ValueError(
                 "Tried to resizing fock, which is not a part of this envelope"
             )
